@@ -94,8 +94,15 @@ pub fn proxy_handler(
         let mut proxied_request = request.clone();
         proxied_request.uri = simplified_uri;
 
-        let target_sock = target.to_socket_addrs().unwrap().next().unwrap();
-        let response = proxy_request(&proxied_request, target_sock, Duration::from_secs(5));
+        // A target which is not an address, or whose name cannot be resolved at the moment, is a
+        //   bad gateway like one that refuses the connection
+        let response = match target.to_socket_addrs().ok().and_then(|mut addrs| addrs.next()) {
+            Some(target_sock) => {
+                proxy_request(&proxied_request, target_sock, Duration::from_secs(5))
+            }
+            None => Response::empty(StatusCode::BadGateway)
+                .with_bytes(b"<html><body><h1>502 Bad Gateway</h1></body></html>"),
+        };
         let status: u16 = response.status_code.into();
         let status_string: &str = response.status_code.into();
 
